@@ -1,6 +1,7 @@
 package main
 
 import (
+	"strconv"
 	"encoding/json"
 	"flag"
 	"fmt"
@@ -37,6 +38,9 @@ type Ctx struct {
 
 var checks = map[string]func(*Ctx){}
 
+// debugFrom (VERIF_FROM): skip the cases before this index (bisecting history-dependent behaviour).
+var debugFrom = func() int64 { n, _ := strconv.ParseInt(os.Getenv("VERIF_FROM"), 10, 64); return n }()
+
 func register(id string, f func(*Ctx)) { checks[id] = f }
 
 func (c *Ctx) Quick() bool    { return c.Tier != "thorough" }
@@ -55,6 +59,9 @@ func (c *Ctx) Mine() bool {
 	}
 	if c.only >= 0 {
 		return i == c.only
+	}
+	if debugFrom > 0 && i < debugFrom {
+		return false
 	}
 	if i%int64(c.NShards) != int64(c.Shard) {
 		return false
